@@ -38,6 +38,9 @@ CHECKS = {
  'C19': dict(tech='Verus contracts per element (generic T for pure element movement; exact scalar for colour arithmetic) on the extracted From conversions between the 13 vector types, swizzles, with_*, unit/direction constructors, ShuffleMask4 (bit-vector proofs) and lane shuffles, colour helpers; theorem functions for embedding/multiplication commutation, inverted_rgb involution, all shuffle index tuples',
              text='Deductive proof: every From between vector kinds/sizes keeps order, drops trailing elements or appends zeros (or the supplied scalar; w=1 points, w=0 directions); named swizzles and with_* permute/replace exactly the named elements; ShuffleMask4::new/to_indices pack and unpack indices modulo 4 for all usize tuples (by bit_vector) and shuffle_lo_hi/shuffled pick (lo[a%4], lo[b%4], hi[c%4], hi[d%4]); interleave/move helpers match their lane diagrams; unit vectors and the named directions; colour constructors, named colours, inverted_rgb (involution keeping alpha), average_rgb, ARGB/BGRA/BGR reorderings; Mat4::from(m3)*from_direction/from_point(v) == from_direction/from_point(m3*v).',
              note=TB + 'ColorComponent is a prelude stand-in (full = opaque constant); From<[T;N]> is unsafe code proved by Kani (C18).', ref='5 C19'),
+ 'C11': dict(tech='Verus contracts (definitions of dot, magnitude, distance, normalisation family, approx-zero tests, reflection, refraction by cases, face_forward, angle_between, 2-D side/area, homogenisation, cross) on the extracted vec_impl_spatial! expansions of all 9 spatial vector types + z3 (QF_NRA) lemmas for the cross-product laws, unit length/parallelism of normalized, mirror law, Snell (staged), glued by theorem functions',
+             text='Deductive proof for Vec2/3/4/8/16/32/64 and Extent2/3: every spatial function equals its definition; theorem functions (Vec2/3/4) prove: cross product bilinear, anticommutative, orthogonal to both operands, |a x b|^2 = |a|^2|b|^2-(a.b)^2; magnitude >= 0 with magnitude^2 = magnitude_squared, distance likewise; normalized has unit length, is parallel to and points along v (all four normalisation forms agree); try_normalized is None exactly when is_approx_zero; reflected flips the normal component and keeps the length; refracted is the zero vector on total internal reflection and otherwise a unit vector with normal component -sqrt(k) (Snell); angle_between lies in [0,pi]; homogenized has w = 1.',
+             note=TB + 'approx::RelativeEq is modelled by pre::rel_eq_r; acos_r/sqrt_r axioms; vek::ops::Clamp is extracted (real trait and f32 impl with f32 := R). Vec3 slerp is not yet under contract.', ref='5 C11'),
  'C06': dict(tech='Verus contracts (cofactor/Leibniz determinant, adjugate/determinant inverse) on the extracted determinant/inverted/Mul functions + z3 (QF_NRA) lemmas for det multiplicativity, transpose invariance and M*adj/det = I, glued by Verus-checked theorem functions over the real API',
              text='Deductive proof: determinant (2,3,4; both layouts) equals the cofactor expansion; Mat4::inverted (2x2-block algorithm through the real shuffle/mat2 helper code incl. the bit-packed ShuffleMask4) returns adj(M)/det(M) whenever det != 0; theorem functions calling the real API prove det(M^T)=det(M), layout invariance, det(AB)=det(A)det(B) and M*M^-1 = M^-1*M = I for every real matrix with non-zero determinant, with the polynomial/rational identities discharged by z3 (nlsat / solve-eqs+smt portfolio).',
              note=TB + 'The rigid and affine fast inverses are not yet under contract (listed under not_decided).', ref='5 C06'),
